@@ -16,6 +16,8 @@ import (
 )
 
 // latSvc answers each request according to a script: "a<ms>" answer after ms, "f<ms>" fail
+// after ms, "t<ms>" fail after ms with an error that wraps context.DeadlineExceeded, "h" hang.
+// (continued:)
 // after ms, "h" hang until the context ends.  It honours its context.
 type latSvc struct {
 	mu      sync.Mutex
@@ -58,12 +60,12 @@ func (s *latSvc) Get(ctx context.Context, name string) (*api.SecretValue, error)
 	case <-ctx.Done():
 		return nil, ctx.Err()
 	}
+	if b[0] == 't' {
+		// a failure of the client's own making that wraps a context error (its per-request
+		// timeout) while every caller's context is alive: a failed lookup like any other
+		return nil, fmt.Errorf("injected lookup failure: %w", context.DeadlineExceeded)
+	}
 	if b[0] == 'f' {
-		if len(s.starts)%2 == 0 {
-			// a failure of the client's own making that wraps a context error (its per-request
-			// timeout) while every caller's context is alive: a failed lookup like any other
-			return nil, fmt.Errorf("injected lookup failure: %w", context.DeadlineExceeded)
-		}
 		return nil, errors.New("injected lookup failure")
 	}
 	return &api.SecretValue{Version: 1, Value: []byte("looked-up")}, nil
@@ -111,7 +113,7 @@ func traceLookup(t *testing.T, o opts) {
 		}
 		var script []string
 		for i := 0; i < 1+r.Intn(4); i++ {
-			script = append(script, pick(r, []string{"a50", "a50", "a2000", "a600000", "f20", "f1000", "h", "h"}))
+			script = append(script, pick(r, []string{"a50", "a50", "a2000", "a600000", "f20", "f1000", "t20", "t1000", "h", "h"}))
 		}
 		emit("begin\t%d", h)
 		synctest.Test(t, func(t *testing.T) {
